@@ -10,16 +10,25 @@ def handle (j : Json) : R (List (String × Json)) := do
   let obj := if (← strF j "obj") == "cost" then Objective.cost else Objective.distance
   let routes ← listF (parseRouteCtx m obj) j "routes"
   let dims := (routes.headD { m := m, veh := ⟨0, 0, 0, none⟩, cap := [], costs := ⟨0, 0, 0⟩, obj := obj, tour := [] }).cap.length
-  let cands ← listF (parseJob dims) j "cands"
+  -- a multi-task candidate (`multi`) is evaluated by `eval_multi`, which the model does not predict: its unpruned cost is
+  -- taken over from the implementation's own sequential scan (traced), everything else is predicted from the bare tours
+  let candsJ ← arrF j "cands"
+  let cands : List (Option JobS) ← candsJ.mapM (fun cj =>
+    match cj.getObjVal? "multi" with
+    | .ok _ => pure none
+    | .error _ => do pure (some (← parseJob dims cj)))
   let impl ← fld j "impl"
   let order ← listF asNat impl "route_order"
+  let implPairs ← listF parseCost impl "pairs"
   -- work list in the order the evaluator saw it: routes × jobs
-  let items : List (Option (List Int)) := order.flatMap (fun ri =>
+  let items : List (Option (List Int)) := (order.zipIdx).flatMap (fun (ri, pos) =>
     match routes[ri]? with
     | none => []
-    | some c => cands.map (fun jb => (evalJob c jb .any).map (·.cost)))
+    | some c => (cands.zipIdx).map (fun (jb, k) =>
+        match jb with
+        | some job => (evalJob c job .any).map (·.cost)
+        | none => (implPairs[pos * cands.length + k]?).join))
   let seqMin := minOpt costLe items
-  let implPairs ← listF parseCost impl "pairs"
   let implPools ← listF (listOf parseCost) impl "pools"
   let implSeqMin := minOpt costLe implPairs
   let allEqMin := implPools.all (fun runs => runs.all (fun c => c == implSeqMin))
@@ -28,6 +37,7 @@ def handle (j : Json) : R (List (String × Json)) := do
   return [("model", model),
           ("oracle", Json.mkObj [("every_pool_and_repeat_equals_sequential_minimum", Json.bool allEqMin)]),
           ("info", Json.mkObj [("successes", jNat (implPairs.filter (·.isSome)).length),
+                               ("multi_task_candidates", jNat (cands.filter (·.isNone)).length),
                                ("distinct_costs", jNat (implPairs.filterMap id).eraseDups.length)])]
 
 end Drv.C15
